@@ -16,11 +16,13 @@ import (
 // slices, arrays and maps, and calls Hash() on a type (or its pointer) that implements
 // Hashable instead of walking it.  For every struct reachable from ast.Task one row per field:
 // (struct, field, kind, element type) with kind one of
-//   value      basic type or interface (walked by value)
-//   hashable   named type with a Hash() (uint64, error) method
-//   struct     named struct with exported fields (walked; its own rows follow)
-//   opaque     struct with no exported field and no Hash method: contributes NOTHING
-//   unexported / ignored   the field itself is skipped
+//
+//	value      basic type or interface (walked by value)
+//	hashable   named type with a Hash() (uint64, error) method
+//	struct     named struct with exported fields (walked; its own rows follow)
+//	opaque     struct with no exported field and no Hash method: contributes NOTHING
+//	unexported / ignored   the field itself is skipped
+//
 // plus the run-mode → key-function table of Executor.GetHash and the key expressions.
 func genHashFields(pkgs []*packages.Package) {
 	var astPkg, hashPkg, rootPkg *packages.Package
